@@ -4,6 +4,8 @@
    address <net> <script_type> <encoding> <witver> <data hex> <hashed_data hex>
    keyhash <entry> <fmt> <arg> <compressed>
    modsqrt <a>
+   stdaddr <net> <script_type> <encoding> <data hex>      the standard address over the FROZEN specification table
+                                                          (Model/SpecNetworks.v; frozen_address_by_name), not the regenerated one
    entry = Key | HDKey; fmt = int | dec | hex | bytes | point (arg "x,y"); booleans 1/0; carg N/1/0 *)
 module BZ = Z
 open C04_model
@@ -16,6 +18,17 @@ let rec name_of = function
       let bit x k = if x then 1 lsl k else 0 in
       let code = bit a 0 + bit b 1 + bit c 2 + bit d 3 + bit e 4 + bit f 5 + bit g 6 + bit h 7 in
       Stdlib.String.make 1 (Char.chr code) ^ name_of r
+
+(* OCaml string -> extracted Coq string *)
+let coq_string_of s =
+  let n = Stdlib.String.length s in
+  let rec go i =
+    if i = n then EmptyString
+    else
+      let c = Char.code s.[i] in
+      let b k = (c lsr k) land 1 = 1 in
+      String (Ascii (b 0, b 1, b 2, b 3, b 4, b 5, b 6, b 7), go (i + 1)) in
+  go 0
 
 let net_of s = List.find (fun n -> name_of n.nw_name = s) all_networks
 let str_of_bytes l =
@@ -107,6 +120,14 @@ let dispatch = function
   | ["address"; net; st; enc; witver; data; hashed] ->
       oaddr (address net (st_of st) (enc_of enc) (z_of witver) (bytes_of_hex data) (bytes_of_hex hashed))
   | ["modsqrt"; a] -> str_z (lib_mod_sqrt (z_of a))
+  | ["stdaddr"; net; st; enc; data] ->
+      (match st_of st, enc_of enc with
+       | Some s, Some e ->
+           (match frozen_address_by_name (coq_string_of net) s e (bytes_of_hex data) with
+            | Some (Some a) -> str_of_bytes a
+            | Some None -> "NONE"
+            | None -> "NONET")
+       | _ -> "BADREQ")
   | ["spec_address"; net; st; enc; data] ->
       (match st_of st, enc_of enc with
        | Some s, Some e -> (match spec_address (net_of net) s e (bytes_of_hex data) with Some a -> str_of_bytes a | None -> "NONE")
